@@ -219,6 +219,49 @@ func addAcrossClose(r *rand.Rand, dir string, t *Trace) {
 	os.RemoveAll(dir)
 }
 
+// raceRound: eight goroutines released together open one fresh directory; exactly one may win, whatever the
+// instant at which a loser looks at the winner's half-written lock. The winner then closes.
+func raceRound(dir string, t *Trace) {
+	os.RemoveAll(dir)
+	const k = 8
+	hs := make([]int, k)
+	codes := make([]int, k)
+	sts := make([]*comet.PersistentHybridIndex, k)
+	var wg sync.WaitGroup
+	start := make(chan struct{})
+	for i := 0; i < k; i++ {
+		hs[i] = i + 1
+		wg.Add(1)
+		go func(i int) {
+			defer wg.Done()
+			<-start
+			st, err := openPlain(dir)
+			codes[i] = lockCode(err)
+			sts[i] = st
+		}(i)
+	}
+	close(start)
+	wg.Wait()
+	la := lockExists(dir)
+	var ops []func(c *Case)
+	ops = append(ops, func(c *Case) { c.N(4).Ints(hs).Ints(codes).B(la) })
+	for i := 0; i < k; i++ {
+		if sts[i] != nil {
+			h := hs[i]
+			e := sts[i].Close()
+			code := lockCode(e)
+			la2 := lockExists(dir)
+			ops = append(ops, func(c *Case) { c.N(2).N(h).N(code).B(la2) })
+		}
+	}
+	c := NewCase(1700).N(len(ops))
+	for _, f := range ops {
+		f(c)
+	}
+	t.Emit(c, "lock.race_round")
+	os.RemoveAll(dir)
+}
+
 func genC17(r *rand.Rand, t *Trace, thorough bool) {
 	n := 40
 	if thorough {
@@ -229,6 +272,10 @@ func genC17(r *rand.Rand, t *Trace, thorough bool) {
 		work = os.TempDir()
 	}
 	self, _ := os.Executable()
+	for it := 0; it < 3*n; it++ {
+		storeCaseCounter++
+		raceRound(filepath.Join(work, "stores", fmt.Sprintf("lr%d_%d", os.Getpid(), storeCaseCounter)), t)
+	}
 	for it := 0; it < 6+n/40; it++ {
 		storeCaseCounter++
 		addAcrossClose(r, filepath.Join(work, "stores", fmt.Sprintf("la%d_%d", os.Getpid(), storeCaseCounter)), t)
